@@ -50,11 +50,32 @@ FIXTURES = [
 
 
 def roles(crate):
+    roles.forwarder = None
     adt = util.need_adt(crate, "DSU")
     vecs = util.field_index_by_type(adt, lambda t: t.replace("alloc::", "std::") == "std::vec::Vec<usize>")
     if len(vecs) != 2:
         raise Anchor("DSU is expected to have exactly two Vec<usize> fields, found %d" % len(vecs))
     find = util.need_body(crate, "DSU::par")
+    # `par` may be a plain forwarder to a private recursive worker: the worker is then the find function, and the
+    # forwarder is judged inlined into its callers like any other helper
+    if not util.self_recursive(find):
+        I0 = util.analyse(find)
+        v0 = ("param", 2, I0.names.get(2))
+        workers = set()
+        fwd = bool(I0.final_states)
+        for st in I0.final_states:
+            calls = [e for e in util.events_of(st, "call") if crate.by_key.get((e.fn.get("resolved") or e.fn).get("def")) is not None]
+            stores = [e for e in st.event_list() if e.kind == "store"]
+            if len(calls) != 1 or stores or util.ret_term(st) != calls[0].res or len(calls[0].args) != 2 or calls[0].args[1] != v0:
+                fwd = False
+                continue
+            w = crate.by_key[(calls[0].fn.get("resolved") or calls[0].fn).get("def")]
+            if w.vis == "pub" or not util.self_recursive(w) or w not in util.methods_of(crate, "DSU"):
+                fwd = False
+            workers.add(w.key)
+        if fwd and len(workers) == 1 and not I0.loops:
+            roles.forwarder = find
+            find = crate.by_key[workers.pop()]
     # parent field = the array find walks: the field it stores into, or (a find without compression)
     # the only array it reads
     I = util.analyse(find)
@@ -76,7 +97,10 @@ def roles(crate):
 
 def helpers_of(crate, find):
     """private, non-recursive inherent methods of DSU: judged in the context of their callers (inlined)"""
-    return [b for b in util.methods_of(crate, "DSU") if b.vis != "pub" and b.key != find.key and not util.self_recursive(b)]
+    hs = [b for b in util.methods_of(crate, "DSU") if b.vis != "pub" and b.key != find.key and not util.self_recursive(b)]
+    if roles.forwarder is not None:
+        hs.append(roles.forwarder)
+    return hs
 
 
 def ev_loc(crate, body, ev):
@@ -104,8 +128,7 @@ def check(col, prog, tier, profile, fixture=None):
     col.rule("D7" + sfx, "parent/size arrays written only by new, reset, find, un", floor=1)
 
     helpers = helpers_of(crate, find)
-    inl = frozenset(h.key for h in helpers)
-    A = (lambda b: util.analyse(b, inline=inl)) if inl else util.analyse
+    A = util.analyser(helpers, features=("fncall", "comb"))
     I = A(un)
     find_calls = lambda st: [e for e in util.events_of(st, "call") if e.callee == find.path or (e.fn.get("resolved") or e.fn).get("def") == find.key]
     for n, st in enumerate(I.final_states):
@@ -271,7 +294,7 @@ def _check_find(col, crate, rid, find, P, SZ):
     chain term r with the path fact parent[r] == r); the returned value is a root; a recursive call is made on
     parent[v] under parent[v] != v."""
     fk = util.fkey
-    If = util.analyse(find)
+    If = util.analyser([h for h in helpers_of(crate, find) if h is not roles.forwarder])(find)
     v = ("param", 2, If.names.get(2))
     selfp = ("deref", ("param", 1, If.names.get(1)))
     headof = {}
@@ -467,6 +490,77 @@ def _check_init(col, crate, rid, P, SZ):
                 else:
                     okall = okall and sts_[0].val == mk_int(1) and ((not enum_ and sts_[0].place == ("deref", P_)) or (bool(enum_) and sts_[0].place == ("deref", ("proj", 1, P_))))
             if okall:
+                done[f] = True
+    # general iterator form: the loop draws items from a chain built of iter_mut / zip / enumerate over the arrays;
+    # the item is a tree of positions and cells, every store of the body goes through a cell of the item
+    def _args(t):
+        return [y for y in t[2] if not (isinstance(y, tuple) and y and y[0] == "mem")]
+
+    def item_tree(t):
+        if not (isinstance(t, tuple) and t and t[0] == "call"):
+            return None
+        nm = str(t[1]).rsplit("::", 1)[-1]
+        a = _args(t)
+        if nm == "into_iter" and a:
+            return item_tree(a[0])
+        if nm == "enumerate" and a:
+            sub = item_tree(a[0])
+            return ("tuple", [("pos",), sub]) if sub else None
+        if nm == "zip" and len(a) == 2:
+            l, r = item_tree(a[0]), item_tree(a[1])
+            return ("tuple", [l, r]) if l and r else None
+        if nm == "iter_mut" and a:
+            fs = [x[2] for x in [a[0]] + list(subterms(a[0])) if x[0] == "field" and x[1] == selfp_r and x[2] in want]
+            return ("cell", fs[0]) if len(fs) == 1 else None
+        return None
+
+    owners, work = [], [I]
+    while work:
+        x_ = work.pop()
+        owners.extend((x_, h_) for h_ in x_.loops)
+        work.extend(getattr(x_, "inlined_subs", []))
+    for L, head in owners:
+        sts = L.backedge_states.get(head, [])
+        ents = L.loop_entry.get(head, [])
+        if not sts or len(ents) != 1:
+            continue
+        covered = {f: True for f in want}
+        for st in sts:
+            evs = st.event_list()
+            li = max(k for k, e in enumerate(evs) if e.kind == "loop")
+            nx = [e for e in evs[li:] if e.kind == "call" and e.extra.get("name") == "next" and e.args and e.args[0][0] == "ref" and e.args[0][1][0] == "local"]
+            tree = item_tree(ents[0].get(nx[-1].args[0][1][1])) if nx else None
+            if tree is None:
+                covered = {f: False for f in want}
+                break
+            P_ = ("proj", 0, ("down", nx[-1].res, 1))
+
+            def resolve(t):
+                if t == P_:
+                    return tree
+                if isinstance(t, tuple) and t and t[0] == "proj":
+                    sub = resolve(t[2])
+                    if sub and sub[0] == "tuple" and isinstance(t[1], int) and t[1] < len(sub[1]):
+                        return sub[1][t[1]]
+                return None
+
+            hit = set()
+            for e in evs[li:]:
+                if e.kind != "store":
+                    continue
+                cell = resolve(e.place[1]) if e.place[0] == "deref" else None
+                if cell is None or cell[0] != "cell":
+                    continue
+                f = cell[1]
+                good = (resolve(e.val) == ("pos",)) if want[f] == "index" else (e.val == mk_int(1))
+                if good:
+                    hit.add(f)
+                else:
+                    stray[f].append(e)
+            for f in want:
+                covered[f] = covered[f] and f in hit
+        for f in want:
+            if covered[f]:
                 done[f] = True
     for f in want:
         if stray[f]:
